@@ -76,6 +76,10 @@ type extractor struct {
 	varType map[string]map[string]string // dir -> printed expr -> type name
 	warn    []string
 	fresh   []string
+	// frame mode: a call of a tracked method is expanded only when the callee takes no lock at all (a helper
+	// run under the caller's lock) or is an accessor (one critical section and nothing else); any other callee
+	// is a frame of its own.  Used for the check-then-act rule (Model/Rmw.v), which is about one function body.
+	frameMode bool
 }
 
 func exprString(fset *token.FileSet, e ast.Expr) string {
@@ -133,6 +137,20 @@ func (x *extractor) exprEvents(dir string, e ast.Expr, depth int, out *[][]lev) 
 	case *ast.UnaryExpr:
 		x.exprEvents(dir, v.X, depth, out)
 	case *ast.BinaryExpr:
+		if x.frameMode && (v.Op == token.EQL || v.Op == token.NEQ) {
+			// `X.f == nil` looks at the field cell only, not at what it points to (the check-then-act rule needs
+			// reads that are not over-approximated)
+			for _, pr := range [][2]ast.Expr{{v.X, v.Y}, {v.Y, v.X}} {
+				if id, ok := pr[1].(*ast.Ident); ok && id.Name == "nil" {
+					if se, ok := pr[0].(*ast.SelectorExpr); ok {
+						if t := x.typeOfExpr(dir, se.X); t != nil && contains(t.fields, se.Sel.Name) {
+							appendAll([]lev{{"rd", t.name + "." + se.Sel.Name}})
+							return
+						}
+					}
+				}
+			}
+		}
 		x.exprEvents(dir, v.X, depth, out)
 		x.exprEvents(dir, v.Y, depth, out)
 	case *ast.ParenExpr:
@@ -213,6 +231,9 @@ func (x *extractor) callEvents(dir string, c *ast.CallExpr, depth int, out *[][]
 			}
 			if fd, ok2 := x.methods[t.name+"."+sel.Sel.Name]; ok2 && depth < 6 {
 				sub := x.funcPaths(t.dir, fd, depth+1)
+				if x.frameMode && !frameInlinable(sub) {
+					return
+				}
 				var next [][]lev
 				for _, base := range *out {
 					for _, sp := range sub {
@@ -260,6 +281,43 @@ func (x *extractor) callEvents(dir string, c *ast.CallExpr, depth int, out *[][]
 	for _, a := range c.Args {
 		x.exprEvents(dir, a, depth, out)
 	}
+}
+
+// frameInlinable: no lock operation on any path, or every path is exactly one critical section
+func frameInlinable(sub [][]lev) bool {
+	lockFree, accessor := true, true
+	for _, p := range sub {
+		nacq, nrel := 0, 0
+		for _, e := range p {
+			switch e.kind {
+			case "acqR", "acqW":
+				nacq++
+			case "rel":
+				nrel++
+			}
+		}
+		if nacq+nrel > 0 {
+			lockFree = false
+		}
+		if len(p) == 0 {
+			continue
+		}
+		// one critical section from the first event on; after its release only reads through a returned alias
+		tailOK := true
+		relSeen := false
+		for _, e := range p {
+			if relSeen && e.kind != "rd" {
+				tailOK = false
+			}
+			if e.kind == "rel" {
+				relSeen = true
+			}
+		}
+		if !(nacq == 1 && nrel == 1 && strings.HasPrefix(p[0].kind, "acq") && tailOK) {
+			accessor = false
+		}
+	}
+	return lockFree || accessor
 }
 
 // escapes: e is a selector / index chain rooted at a guarded field (no copy in between)
@@ -654,10 +712,44 @@ func locksExtract(args []string) error {
 			labels = append(labels, n+"/go")
 		}
 	}
+	// second pass, frame mode: every method body on its own (helpers and accessors expanded)
+	x.frameMode = true
+	var frames [][]lev
+	var flabels []string
+	for _, n := range names {
+		fd := x.methods[n]
+		tn := strings.SplitN(n, ".", 2)[0]
+		t := x.types[tn]
+		x.varType[t.dir] = map[string]string{}
+		for _, u := range sharedTypes {
+			if u.dir == t.dir {
+				for _, v := range u.vars {
+					if _, dup := x.varType[t.dir][v]; !dup || u.name == tn {
+						x.varType[t.dir][v] = u.name
+					}
+				}
+			}
+		}
+		if len(fd.Recv.List[0].Names) > 0 {
+			x.varType[t.dir][fd.Recv.List[0].Names[0].Name] = tn
+		}
+		if contains(t.exempt, fd.Name.Name) {
+			continue
+		}
+		for _, p := range x.funcPaths(t.dir, fd, 0) {
+			frames = append(frames, p)
+			flabels = append(flabels, n)
+		}
+		for _, p := range x.goBodies(t.dir, fd) {
+			frames = append(frames, p)
+			flabels = append(flabels, n+"/go")
+		}
+	}
+	x.frameMode = false
 	// ids
 	ids := map[string]int{}
 	var keys []string
-	for _, p := range tbl {
+	for _, p := range append(append([][]lev{}, tbl...), frames...) {
 		for _, e := range p {
 			if _, ok := ids[e.name]; !ok {
 				ids[e.name] = 0
@@ -713,6 +805,55 @@ func locksExtract(args []string) error {
 		b.WriteString("]")
 	}
 	b.WriteString("].\n")
+	// frames: de-duplicated, only those with a plain write (the rule is vacuous on the others)
+	b.WriteString("\n(* one entry per control-flow path of each method body taken on its own *)\nDefinition frames : list path :=\n  [")
+	first = true
+	nframes := 0
+	seenF := map[string]bool{}
+	for i, p := range frames {
+		hasWr := false
+		for _, e := range p {
+			if e.kind == "wr" {
+				hasWr = true
+			}
+		}
+		k := fmt.Sprint(p)
+		if !hasWr || seenF[k] {
+			continue
+		}
+		seenF[k] = true
+		nframes++
+		if !first {
+			b.WriteString(";\n   ")
+		}
+		first = false
+		fmt.Fprintf(&b, "(* %s *) [", flabels[i])
+		for j, e := range p {
+			if j > 0 {
+				b.WriteString("; ")
+			}
+			id := ids[e.name]
+			switch e.kind {
+			case "acqR":
+				fmt.Fprintf(&b, "Acq %d MR", id)
+			case "acqW":
+				fmt.Fprintf(&b, "Acq %d MW", id)
+			case "rel":
+				fmt.Fprintf(&b, "Rel %d", id)
+			case "rd":
+				fmt.Fprintf(&b, "Rd %d", id)
+			case "wr":
+				fmt.Fprintf(&b, "Wr %d", id)
+			case "ard":
+				fmt.Fprintf(&b, "ARd %d", id)
+			case "awr":
+				fmt.Fprintf(&b, "AWr %d", id)
+			}
+		}
+		b.WriteString("]")
+	}
+	b.WriteString("].\n")
+	fmt.Fprintf(&b, "\n(* %d frames with a plain write *)\n", nframes)
 	fmt.Fprintf(&b, "\n(* %d paths, %d non-empty; warnings: %s *)\n", len(tbl), nonEmpty, strings.Join(x.warn, "; "))
 	if len(x.warn) > 0 { // fail closed: an incomplete table must not be checked
 		return fmt.Errorf("locks-extract: %s", strings.Join(x.warn, "; "))
